@@ -3,6 +3,7 @@ package exec
 import (
 	"bytes"
 	"encoding/json"
+	"errors"
 	"fmt"
 	"reflect"
 	"sort"
@@ -222,6 +223,31 @@ func (r *run) guarded(i int, or *OpRes, call func() error) {
 	}
 }
 
+// vizJoined hands Visualize the error of a failed Invoke inside a multi-error (errors.Join with an unrelated error, the
+// way a caller collecting several failures would) and reports whether CanVisualizeError says there is something to draw
+// and whether the picture differs from the one drawn without any error.  C19: the two must agree.
+func (r *run) vizJoined(err error) (res *VizJoin) {
+	res = &VizJoin{}
+	defer func() {
+		if p := recover(); p != nil {
+			res.Panic = fmt.Sprint(p)
+		}
+	}()
+	joined := errors.Join(errors.New("another failure"), err)
+	res.Can = dig.CanVisualizeError(joined)
+	var plain, with bytes.Buffer
+	if e := dig.Visualize(r.container, &plain); e != nil {
+		res.Panic = "Visualize: " + e.Error()
+		return res
+	}
+	if e := dig.Visualize(r.container, &with, dig.VisualizeError(joined)); e != nil {
+		res.Panic = "Visualize: " + e.Error()
+		return res
+	}
+	res.Same = plain.String() == with.String()
+	return res
+}
+
 // what an Info struct holds before the call: a caller's earlier contents.  A rejected Provide or Decorate must not
 // write to it (C18); an accepted one overwrites all three fields.
 const sentinelID = dig.ID(-7)
@@ -396,6 +422,9 @@ func (r *run) exec(i int, op Op, or *OpRes) {
 		r.guarded(i, or, func() error { return dig.Visualize(r.container, &buf, opts...) })
 		text := buf.String()
 		or.DotText = &text
+		if op.ErrOf != nil && *op.ErrOf >= 0 && r.errs[*op.ErrOf] != nil {
+			or.VizJoin = r.vizJoined(r.errs[*op.ErrOf])
+		}
 		or.DotNames = r.dotNames()
 		if _, panicked := or.V.(verdictPanic); !panicked {
 			if r.tnames == nil {
